@@ -129,7 +129,18 @@ def compare(S, ctx, new, old_pts, m, kind, what, monitor, mclass, skewed=False, 
     S_ = max([1e-3, S_floor] + [abs(v) for p in exp + old_pts for v in p] + [abs(m[4]), abs(m[5])])
     size = max([math.hypot(p[0] - exp[0][0], p[1] - exp[0][1]) for p in exp] + [0.0])
     k = m_cond(m) * extra_cond
-    bound = 4 * b_affine(S_, k) + (2e-9 * size * max(1.0, k / 10) if kind == "Arc" else 0.0)
+    arc_term = 0.0
+    if kind == "Arc":
+        # radii, not the sampled chord, set the scale of an arc's parameter noise; flat ellipses magnify it (same terms as C06 / C08 and the hook)
+        ecc = 1.0
+        try:
+            r1, r2 = float(new.rx), float(new.ry)
+            size = max(size, r1, r2)
+            ecc = max(r1, r2) / max(min(r1, r2), 1e-300)
+        except Exception:
+            pass
+        arc_term = 2e-9 * size * max(1.0, k / 10) * max(1.0, ecc / 100.0) + 8 * 2.3e-16 * S_ * ecc * ecc
+    bound = 4 * b_affine(S_, k) + arc_term
     dev = 0.0
     at = None
     for i, (a, b) in enumerate(zip(got, exp)):
